@@ -139,9 +139,12 @@ func (x *Exec) execBlock(list []ast.Stmt, st *State, env *Env) Flow {
 }
 
 func (x *Exec) execStmtWithPoints(s ast.Stmt, st *State, env *Env) Flow {
+	if st == nil {
+		return Flow{} // unreachable: every path before this statement has ended
+	}
 	// only simple statements carry anchors; compound statements are traversed
 	switch s.(type) {
-	case *ast.AssignStmt, *ast.ExprStmt, *ast.ReturnStmt, *ast.SendStmt, *ast.IncDecStmt, *ast.DeclStmt, *ast.SwitchStmt, *ast.IfStmt:
+	case *ast.AssignStmt, *ast.ExprStmt, *ast.ReturnStmt, *ast.SendStmt, *ast.IncDecStmt, *ast.DeclStmt, *ast.SwitchStmt, *ast.IfStmt, *ast.GoStmt, *ast.DeferStmt:
 		if len(x.anchors[s]) == 0 {
 			return x.execStmt(s, st, env)
 		}
@@ -206,6 +209,9 @@ func (x *Exec) contractEnv(pos token.Pos) *Env {
 }
 
 func (x *Exec) execStmt(s ast.Stmt, st *State, env *Env) Flow {
+	if st == nil {
+		return Flow{}
+	}
 	switch n := s.(type) {
 	case *ast.BlockStmt:
 		return x.execBlock(n.List, st, env)
@@ -299,7 +305,18 @@ func (x *Exec) execStmt(s ast.Stmt, st *State, env *Env) Flow {
 	case *ast.SendStmt:
 		x.execSend(n, st, env)
 		return Flow{normal: st}
-	case *ast.GoStmt, *ast.SelectStmt, *ast.DeferStmt:
+	case *ast.GoStmt:
+		if x.con != nil && x.con.Prefix {
+			// prefix mode: the verified prefix of this path ends where the first goroutine is started (points anchored
+			// `before` the statement have run); other paths of an enclosing switch/if are still followed
+			p := x.g.fset.Position(s.Pos())
+			x.c.notes[fmt.Sprintf("%s: verified up to the go statement at %s:%d on that path", x.fi.Key, shortPath(p.Filename), p.Line)] = true
+			dead := st.clone()
+			dead.pc = "false"
+			return Flow{normal: dead}
+		}
+		panic(unsupported(fmt.Sprintf("statement %T (concurrency / defer)", s)))
+	case *ast.SelectStmt, *ast.DeferStmt:
 		panic(unsupported(fmt.Sprintf("statement %T (concurrency / defer)", s)))
 	}
 	panic(unsupported(fmt.Sprintf("statement %T", s)))
@@ -1077,6 +1094,9 @@ func (x *Exec) execFor(n *ast.ForStmt, st *State, env *Env) Flow {
 	spec, ord := x.loopSpec(n)
 	if n.Init != nil {
 		st = x.execStmt(n.Init, st, env).normal
+		if st == nil {
+			return Flow{}
+		}
 	}
 	pos := n.Body.Lbrace + 1
 	x.checkInvariants("init", ord, spec, st, pos, nil)
